@@ -32,6 +32,7 @@ type FuncContract struct {
 	Props    []string
 	Requires []*Clause
 	Ensures  []*Clause
+	Asserts  map[string][]*Clause // point (e.g. "select 1") -> assertions proved at that point
 	Assumes  []*Clause // definitional assumptions (listed in the evidence), asserted at function entry
 	Modifies []string // raw modifies items
 	Loops    map[int]*LoopSpec
@@ -74,6 +75,7 @@ type ObjectSpec struct {
 	Ghost    []SpecParam // ghost fields (heaps indexed by object ref)
 	Invs     []*Clause
 	Trans    []*Clause
+	Stable   []*Clause // predicates that stay true while the lock is held, whatever other threads / callbacks do
 	Rules    []*Clause // two-state ghost definitions: "g == expr(old, new)"
 	Props    []string
 	File     string
@@ -226,6 +228,23 @@ func ParseSpecFile(path, pkgPath string, ps *PkgSpec) error {
 			} else {
 				return fail(l.n, "props outside block")
 			}
+		case "assert":
+			if curF == nil {
+				return fail(l.n, "assert outside func block")
+			}
+			pt, ex, ok := strings.Cut(rest, ":")
+			if !ok {
+				return fail(l.n, "assert needs '<point>: <expr>'")
+			}
+			c, err := mkClause(l.n, strings.TrimSpace(ex))
+			if err != nil {
+				return err
+			}
+			if curF.Asserts == nil {
+				curF.Asserts = map[string][]*Clause{}
+			}
+			pt = strings.TrimSpace(pt)
+			curF.Asserts[pt] = append(curF.Asserts[pt], c)
 		case "assume":
 			if curF == nil {
 				return fail(l.n, "assume outside func block")
@@ -335,7 +354,7 @@ func ParseSpecFile(path, pkgPath string, ps *PkgSpec) error {
 			case "volatile":
 				curO.Volatile = append(curO.Volatile, items...)
 			}
-		case "inv", "trans", "rule":
+		case "inv", "trans", "rule", "stable":
 			if curO == nil {
 				return fail(l.n, "%s outside object block", kw)
 			}
@@ -350,6 +369,8 @@ func ParseSpecFile(path, pkgPath string, ps *PkgSpec) error {
 				curO.Trans = append(curO.Trans, c)
 			case "rule":
 				curO.Rules = append(curO.Rules, c)
+			case "stable":
+				curO.Stable = append(curO.Stable, c)
 			}
 		default:
 			return fail(l.n, "unknown clause keyword %q", kw)
